@@ -31,6 +31,9 @@ def verdict(c, cls, halg, by, res, allowed, env=None):
         return (cls, "accepted although " + NOBODY_SIGNED[cls])
     if cls.startswith("embed-jwk-priv") and c in ("dpop", "dagtx", "apitoken"):
         return ("embedded-private-jwk", "a token carrying a PRIVATE key in its jwk header was accepted")
+    if by == "attacker" and c in ("vcjwt", "jar"):
+        return ("key-not-of-issuer", f"accepted although signed only by another party's key under that party's kid ({cls}): "
+                "the key does not come from the issuer's / client's own key material")
     if by == "attacker" and not (c in ("dpop", "dagtx") and cls == "embed-jwk-pub-attacker"):
         return ("key-from-header", f"signed only by a key unknown to the protocol's key source ({cls}) and accepted")
     if by == "nobody":
